@@ -255,15 +255,10 @@ func cmdReplay(args []string) int {
 		fmt.Fprintln(os.Stderr, err)
 		return 2
 	}
-	var sel []*harnessPkg
-	for _, hp := range pkgs {
-		if hp.rel == rf.Package {
-			sel = append(sel, hp)
-		}
-	}
+	os.MkdirAll(filepath.Join(verifDir, ".work"), 0o755)
 	work, _ := os.MkdirTemp(filepath.Join(verifDir, ".work"), "replay-")
 	defer os.RemoveAll(work)
-	_, ov, err := overlays(sel, work)
+	_, ov, err := overlays(pkgs, work)
 	if err != nil {
 		fmt.Fprintln(os.Stderr, err)
 		return 2
@@ -365,7 +360,9 @@ func cmdCheck(args []string) int {
 		return 2
 	}
 	defer os.RemoveAll(work)
-	engOverlay, goOverlay, err := overlays(sel, work)
+	// every harness package goes into the overlay (harness packages may use each other's exported helpers);
+	// only the packages holding harnesses of this property are loaded as roots
+	engOverlay, goOverlay, err := overlays(allPkgs, work)
 	if err != nil {
 		fmt.Fprintln(os.Stderr, err)
 		return 2
@@ -453,8 +450,8 @@ func cmdCheck(args []string) int {
 			inconclusive = append(inconclusive, h.Name+": vacuous: no path reached the end of the harness")
 		}
 		for _, id := range h.AssertIDs {
-			if strings.HasSuffix(id, "?") {
-				continue
+			if strings.HasSuffix(id, "?") || !strings.HasPrefix(id, *prop+"/") {
+				continue // optional assertion, or an assertion of a shared scenario that belongs to another property
 			}
 			if res.Asserts[id] == 0 {
 				inconclusive = append(inconclusive, h.Name+": vacuous: assertion "+id+" never reached on any feasible path")
